@@ -9,3 +9,4 @@ done
 ./check E2E --tier $T 2>&1 | tail -1
 ./check RPC --tier $T 2>&1 | tail -1
 ./check MON --tier $T 2>&1 | tail -1
+./check QRY --tier $T 2>&1 | tail -1
